@@ -322,6 +322,9 @@ func runChild() {
 	case "promo":
 		c.prefix = "promo_"
 		runPromo(p, c, base)
+	case "built":
+		c.prefix = "built_"
+		runBuilt(p, c, base)
 	default:
 		fmt.Println("unknown part kind", p.Kind)
 		os.Exit(2)
